@@ -3,7 +3,7 @@ From Coq Require Import Permutation.
 From Boltons Require Import Lib.Prelude Model.C17_Model Spec.C17_Spec Check.C17_Check
   Proofs.C17_Dict Proofs.C17_OTO Proofs.C17_M2M Proofs.C17_FD Proofs.C17_RefineOTO
   Proofs.C17_RefineM2M Proofs.C17_RefineFD Proofs.C17_Agree Proofs.C17_Table Proofs.C17_SpecSound Gen.C17_Gen
-  Lib.C17_Py Gen.C17_Src Proofs.C17_SrcEq Proofs.C17_SrcReach.
+  Lib.C17_Py Gen.C17_Src Proofs.C17_SrcEq Proofs.C17_SrcReach Proofs.C17_SrcEqM.
 
 (* OneToOne: after ANY history of instance creation (pairs, .unique, copies),
    []=, del, pop, popitem, clear, setdefault, update, |=, update-from-instance,
@@ -219,3 +219,14 @@ Theorem C17_src_methods_are_the_model : forall hops o s, In o (oto_run hops) ->
   (forall k d, src_setdefault x k d = lift_step x (OSetdefault k d)).
 Proof. exact src_methods_eq_model_on_reachable. Qed.
 Print Assumptions C17_src_methods_are_the_model.
+
+(* (T), source level, ManyToMany: the bodies of add and remove (statements on
+   self.data / self.inv.data, dicts of set objects mutated in place), transcribed
+   from the CURRENT source, are the model's m_add / m_remove on every reachable
+   instance through either side (remove: the KeyErrors of its second half never fire). *)
+Theorem C17_src_m2m_add_remove_are_the_model : forall hops m s, In m (m2m_run hops) ->
+  let x := m2m_side s m in
+  (forall k v, srcm_add x k v = Ok (VNone, m_add x k v)) /\
+  (forall k v, srcm_remove x k v = lift_m (m_remove x k v)).
+Proof. exact srcm_eq_model_on_reachable. Qed.
+Print Assumptions C17_src_m2m_add_remove_are_the_model.
